@@ -61,6 +61,12 @@ fn hostile_docs() -> Vec<Value> {
         v.push(Value::Array(xs.clone()));
         v.push(Value::Array(xs.iter().enumerate().map(|(i, x)| json!({"k": x, "id": i})).collect()));
     }
+    // calls that fail half-way through their input, next to inputs on which the same call succeeds
+    // (whatever a failed call leaves behind meets the next call of the same worker)
+    v.push(json!([{"k": 1, "a": 1}, {"k": "x", "a": "x"}, {"k": 2, "a": 2}]));
+    v.push(json!([{"k": 2, "a": 2}, {"k": 1, "a": 1}]));
+    v.push(json!([1, 2, "x", 3]));
+    v.push(json!([["a", "b"], ["c", 1], ["d"]]));
     // integers from both ends of the 64-bit ranges side by side (no common machine type)
     v.push(json!([[-9223372036854775808i64], 18446744073709551615u64]));
     v.push(json!([-9223372036854775808i64, 18446744073709551615u64, -9007199254740993i64, 9223372036854775808u64, 9007199254740993u64, 0]));
@@ -124,7 +130,11 @@ pub fn gen_case(rng: &mut Rng) -> (String, &'static str) {
     } else if fam < 96 {
         (refimpl::sentence::long_token_case(rng), "long-token")
     } else if fam < 97 {
-        (refimpl::sentence::lookalike_case(rng), "unicode-lookalike")
+        if rng.chance(1, 2) {
+            (refimpl::sentence::lookalike_case(rng), "unicode-lookalike")
+        } else {
+            (refimpl::sentence::surrogate_case(rng), "surrogate-escapes")
+        }
     } else {
         // a moderately deep member of a depth family (shallow enough to be in scope)
         let f = DEPTH_FAMILIES[rng.below(DEPTH_FAMILIES.len())];
@@ -174,6 +184,7 @@ pub fn run_one(args: &Args) {
         if args.kv.get("run").map_or(false, |v| v == "1") {
             let mut rep = Report::new("C05");
             growth_monitor(&mut rep, 40);
+            width_monitor(&mut rep, 1500);
             println!("RETURNED violations={}", rep.violations_total);
         }
         return;
@@ -410,6 +421,92 @@ fn growth_monitor(rep: &mut Report, max_level: usize) {
     }
 }
 
+/// Wide expressions: n siblings side by side (no nesting). The value is known by construction,
+/// parser and interpreter steps must grow linearly, and nothing may refuse them for their size.
+fn width_family(name: &str, n: usize) -> Option<(String, Value)> {
+    let rep = |item: &str, sep: &str| (0..n).map(|_| item.to_string()).collect::<Vec<_>>().join(sep);
+    Some(match name {
+        "list-of-hashes" => (format!("[{}]", rep("{v: a, w: b.c}", ", ")), Value::Array((0..n).map(|_| json!({"v": 1, "w": 2})).collect())),
+        "pipe-of-hashes" => (format!("{{v: a}} | {}", rep("{v: v}", " | ")), json!({"v": 1})),
+        "or-chain" => (format!("{} || a", rep("nope", " || ")), json!(1)),
+        "or-chain-early" => (format!("nope || a || {}", rep("b", " || ")), json!(1)),
+        "and-chain" => (format!("{} && nope", rep("a", " && ")), json!(null)),
+        "and-chain-late" => (format!("{} && b.c", rep("a", " && ")), json!(2)),
+        "list-of-lists" => (format!("[{}]", rep("[a]", ", ")), Value::Array((0..n).map(|_| json!([1])).collect())),
+        "list-of-filters" => (format!("[{}]", rep("xs[?@ > `1`]", ", ")), Value::Array((0..n).map(|_| json!([2, 3])).collect())),
+        "list-of-calls" => (format!("[{}]", rep("length(xs)", ", ")), Value::Array((0..n).map(|_| json!(3)).collect())),
+        "variadic-args" => (format!("not_null({}, a)", rep("nope", ", ")), json!(1)),
+        "hash-many-keys" => (
+            format!("{{{}}}", (0..n).map(|i| format!("k{}: a", i)).collect::<Vec<_>>().join(", ")),
+            Value::Object((0..n).map(|i| (format!("k{}", i), json!(1))).collect()),
+        ),
+        "cmp-list" => (format!("[{}]", rep("a == `1`", ", ")), Value::Array((0..n).map(|_| json!(true)).collect())),
+        "literal-list" => (format!("[{}]", rep("`{\"k\": [1]}`", ", ")), Value::Array((0..n).map(|_| json!({"k": [1]})).collect())),
+        "raw-list" => (format!("[{}]", rep("'é\\'s'", ", ")), Value::Array((0..n).map(|_| json!("é's")).collect())),
+        _ => return None,
+    })
+}
+
+const WIDTH_FAMILIES: [&str; 14] = [
+    "list-of-hashes", "pipe-of-hashes", "or-chain", "or-chain-early", "and-chain", "and-chain-late", "list-of-lists", "list-of-filters", "list-of-calls", "variadic-args",
+    "hash-many-keys", "cmp-list", "literal-list", "raw-list",
+];
+
+fn width_monitor(rep: &mut Report, max_n: usize) {
+    let doc = json!({"a": 1, "b": {"c": 2}, "xs": [1, 2, 3]});
+    let input = rcvar_of(&doc);
+    for fam in WIDTH_FAMILIES.iter() {
+        let mut base: Option<(usize, u64, u64)> = None;
+        let mut n = 1usize;
+        let mut reached = 0;
+        while n <= max_n {
+            let (text, want) = width_family(fam, n).expect("family");
+            rep.evaluations += 1;
+            jmespath::verif::reset();
+            let c = guarded(|| jmespath::compile(&text));
+            let psteps = jmespath::verif::counters().parse_steps;
+            let e = match c {
+                Ok(Ok(e)) => e,
+                other => {
+                    rep.violation(
+                        &format!("C05/wide-expression-refused/{}", fam),
+                        json!({"family": fam, "siblings": n, "expression_head": text.chars().take(120).collect::<String>(), "got": format!("{:?}", other.map(|r| r.map(|_| ()).map_err(|e| e.to_string())))}),
+                    );
+                    break;
+                }
+            };
+            jmespath::verif::reset();
+            let r = guarded(|| e.search(&input));
+            let isteps = jmespath::verif::counters().interp_steps;
+            let ok = matches!(&r, Ok(Ok(v)) if value_of(v).map_or(false, |g| refimpl::json::val_eq(&g, &want, 0.0)));
+            if !ok {
+                rep.violation(
+                    &format!("C05/wide-expression-wrong-or-failed/{}", fam),
+                    json!({"family": fam, "siblings": n, "expression_head": text.chars().take(120).collect::<String>(), "got": format!("{:?}", r.map(|x| x.map(|v| v.to_string().chars().take(200).collect::<String>()).map_err(|e| e.to_string())))}),
+                );
+                break;
+            }
+            match base {
+                None => base = Some((n, psteps.max(1), isteps.max(1))),
+                Some((n0, p0, i0)) => {
+                    let k = (n as u64 + n0 as u64 - 1) / n0 as u64;
+                    if psteps > 8 * k * p0 + 64 || isteps > 8 * k * i0 + 64 {
+                        rep.violation(
+                            &format!("C05/steps-grow-faster-than-the-expression/width/{}", fam),
+                            json!({"family": fam, "siblings": n, "parse_steps": psteps, "evaluation_steps": isteps, "at_first_size": [n0, p0, i0]}),
+                        );
+                        break;
+                    }
+                }
+            }
+            reached = n;
+            rep.nontrivial(refimpl::rng::fnv(format!("width|{}|{}", fam, n).as_bytes()));
+            n = if n < 12 { n + 1 } else { n + n / 3 };
+        }
+        rep.extra.insert(format!("width/{}", fam), json!({"siblings_reached": reached}));
+    }
+}
+
 pub fn run(args: &Args) {
     let mut rep = Report::new("C05");
     let docs = hostile_docs();
@@ -438,6 +535,7 @@ pub fn run(args: &Args) {
     if args.shard == 0 && !skip.contains(&30_000_000_000) {
         mark("B", 30_000_000_000);
         growth_monitor(&mut rep, if args.tier == "thorough" { 150 } else { 40 });
+        width_monitor(&mut rep, if args.tier == "thorough" { 5000 } else { 1500 });
         mark("E", 30_000_000_000);
     }
     // (1) exhaustive numeric-edge slices: start/stop/step over the edge set x array lengths
